@@ -331,7 +331,7 @@ def plan(tier, seed, workdir):
     import bare_script.library as L
     p = Plan('C19', 'exploration')
     p.encode(D.aggregate_data, D.sort_data, D.top_data, D.join_data, D.filter_data, D.add_calculated_field, D.validate_data, L._data_parse_csv)
-    timeout = 150 if tier == 'quick' else 1200
+    timeout = 150 if tier == 'quick' else 500
     nmax = 2 if tier == 'quick' else 3
     kmax = 4 if tier == 'quick' else 6
     vmax = 2 if tier == 'quick' else 3
